@@ -401,6 +401,9 @@ func (h *httproto) unpack(m erpc.Message, bb *utils.ByteBuffer) (size int, msg [
 	}
 	// the announced size must respect the read limit before the body buffer is allocated
 	if uint64(size) > uint64(erpc.GetReadLimit()) {
+		// the body stays unread: clear the codec so that the session disconnects
+		// instead of answering and then parsing the body as the next message
+		m.SetBodyCodec(codec.NilCodecID)
 		return 0, nil, errExceedReadLimit
 	}
 	bb.ChangeLen(bodySize)
